@@ -34,10 +34,12 @@ from bqskit.ir.gates import CZGate
 from bqskit.ir.gates import HGate
 from bqskit.ir.gates import MeasurementPlaceholder
 from bqskit.ir.gates import Reset
+from bqskit.ir.gates import RXGate
 from bqskit.ir.gates import RZGate
 from bqskit.ir.gates import SXGate
 from bqskit.ir.gates import TGate
 from bqskit.ir.gates import ToffoliGate
+from bqskit.ir.gates import U1Gate
 from bqskit.ir.gates import U3Gate
 from bqskit.ir.operation import Operation
 from bqskit.passes.control import foreach as FE
@@ -420,6 +422,10 @@ def compile_cases(tier: str) -> list[tuple]:
         5, [(0, 1), (1, 2), (2, 3), (3, 4), (0, 4)],
         GateSet({CZGate(), U3Gate()}))
     two = lambda: MachineModel(2, [(0, 1)])                      # noqa: E731
+    line3u1rx = lambda: MachineModel(                            # noqa: E731
+        3, [(0, 1), (1, 2)], GateSet({CNOTGate(), U1Gate(), RXGate()}))
+    line3u1sx = lambda: MachineModel(                            # noqa: E731
+        3, [(0, 1), (1, 2)], GateSet({CZGate(), U1Gate(), SXGate()}))
     cases = [
         ('3q circuit with barrier, line(3), cx/u3, level 1', c_basic, line3, 1),
         ('3q circuit with barrier, line(4), cz/rz/sx, level 1', c_basic,
@@ -429,6 +435,9 @@ def compile_cases(tier: str) -> list[tuple]:
         ('pre-blocked circuit, ring(5) cz/u3, level 1', c_blk, ring5, 1),
         ('1q circuit, 2-qudit machine, level 1', c_one, two, 1),
         ('1q circuit, 2-qudit machine, level 4', c_one, two, 4),
+        ('3q circuit with barrier, line(3), cx/u1/rx, level 1', c_basic,
+         line3u1rx, 1),
+        ('toffoli, line(3), cz/u1/sx, level 1', c_tof, line3u1sx, 1),
         ('3q circuit with barrier, star(4), level 2', c_basic, star4, 2),
         ('toffoli, line(4) cz/rz/sx, level 2', c_tof, line4cz, 2),
     ]
